@@ -1,4 +1,5 @@
 import SaramaVerif.Lemmas.C06
+import SaramaVerif.Lemmas.C06Sys
 /-
   C06 — committed offsets are marked offsets, and no mark is lost.
 
@@ -159,5 +160,341 @@ theorem dirty_cleared_only_by_equal_commit (p : PState) (op : POp)
 
 example : (prun (pinit none) [.manage, .mark 7 2, .snap, .verdict .ok]).dirty = false ∧
           (prun (pinit none) [.manage, .mark 7 2, .snap, .verdict .ok]).store = some (7, 2) := by decide
+
+
+/-! ## commits_monotone_without_reset -/
+
+/-- After the commit of the pending pair `(q.offset, q.md)` (the snapshot of a registered dirty partition),
+    as long as no ResetOffset is accepted (and the partition is not thrown away by the forced release of
+    `Close`), every later commit carries an offset that is at least the committed one, and the later commits
+    are ordered among themselves (`new` is newest first) — for every operation sequence. -/
+theorem commits_monotone_without_reset (q : PState) (hq : PInv q) (hlive : q.live = true)
+    (hdirty : q.dirty = true) (ops : List POp)
+    (hnr : NoAcceptedReset (pstep q .snap) ops) (hnf : ∀ op ∈ ops, op ≠ .release true) :
+    ∃ new, (prun (pstep q .snap) ops).commits = new ++ (q.offset, q.md) :: q.commits ∧
+      (∀ c ∈ new, q.offset ≤ c.1) ∧ List.Pairwise (fun a c => c.1 ≤ a.1) new := by
+  have hoff : (pstep q .snap).offset = q.offset := (committer_pending (p := q) (op := .snap) rfl).1
+  have hl' : (pstep q .snap).live = true := by simp only [pstep]; split <;> exact hlive
+  have hobj' : (pstep q .snap).obj = true := by
+    rw [(committer_pending (p := q) (op := .snap) rfl).2.2.1]; exact hq.live_obj hlive
+  have hanchor : Anchor q.offset (pstep q .snap) :=
+    ⟨pinv_step hq _, hobj', by rw [hoff]; exact Int.le_refl _, Or.inl hl'⟩
+  obtain ⟨new, h1, h2, h3⟩ := anchored_commits hanchor ops hnr hnf
+  refine ⟨new, ?_, h2, h3⟩
+  rw [h1]
+  rcases snap_commits q with hc | ⟨_, _, hc⟩
+  · exfalso
+    simp only [pstep, hlive, hdirty, and_self, ↓reduceIte] at hc
+    exact absurd hc (by simp)
+  · rw [hc]
+
+/-- The offset the coordinator stores never goes backwards along a run in which no ResetOffset is accepted,
+    from every state in which the stored offset is not above what is in flight / pending (`Below`: true
+    initially, and whenever the partition is clean). -/
+theorem store_monotone_without_reset (p : PState) (hp : PInv p) (hb : Below p) (ops : List POp)
+    (hnr : NoAcceptedReset p ops) :
+    (fetched p.store).1 ≤ (fetched (prun p ops).store).1 :=
+  (below_run hp hb ops hnr).2
+
+/-- … in particular between any two points of a run from the start without accepted reset -/
+theorem store_monotone_from_start (st : Option Pair) (pre post : List POp)
+    (hnr : NoAcceptedReset (pinit st) (pre ++ post)) :
+    (fetched (prun (pinit st) pre).store).1 ≤ (fetched (prun (pinit st) (pre ++ post)).store).1 := by
+  have split : ∀ (p : PState) (a b : List POp), NoAcceptedReset p (a ++ b) →
+      NoAcceptedReset p a ∧ NoAcceptedReset (prun p a) b := by
+    intro p a
+    induction a generalizing p with
+    | nil => intro b h; exact ⟨trivial, h⟩
+    | cons x xs ih =>
+      intro b h
+      have := ih (pstep p x) b h.2
+      exact ⟨⟨h.1, this.1⟩, this.2⟩
+  have h := split (pinit st) pre post hnr
+  rw [prun_append]
+  exact store_monotone_without_reset _ (reach_inv st pre) (below_run (pinv_init st) (below_init st) pre h.1).1 post h.2
+
+-- non-vacuity: three commits 7, 9, 9 in order; and with a reset in between the commit does go down
+example : (prun (pinit none) [.manage, .mark 7 1, .snap, .verdict .fail, .mark 9 2, .snap, .verdict .ok,
+            .reset 9 3, .snap]).commits = [(9, 3), (9, 2), (7, 1)] := by decide
+example : NoAcceptedReset (pstep (prun (pinit none) [.manage, .mark 7 1]) .snap)
+            [.verdict .fail, .mark 9 2, .reset 12 1, .snap] := by
+  simp [NoAcceptedReset, pstep, prun, pinit, fetched]
+example : (prun (pinit none) [.manage, .mark 7 1, .snap, .verdict .ok, .reset 3 1, .snap, .verdict .ok]).store
+            = some (3, 1) := by decide
+
+/-! ## no_lost_mark -/
+
+/-- A MarkOffset accepted while a commit is in flight is not lost: whatever application calls `win` land
+    between the snapshot and the end of the attempt, if they moved the position forward then — whatever the
+    attempt's verdict, success included — the partition is still dirty afterwards and the next snapshot
+    carries the pending pair (which is the last accepted mark, `PInv.hist_head`). -/
+theorem no_lost_mark (q : PState) (hq : PInv q) (hlive : q.live = true)
+    (win : List POp) (hwin : ∀ op ∈ win, op.isApp = true)
+    (hmoved : q.offset < (prun (pstep q .snap) win).offset) (v : PVerdict) :
+    (pstep (prun (pstep q .snap) win) (.verdict v)).dirty = true ∧
+    (pstep (pstep (prun (pstep q .snap) win) (.verdict v)) .snap).inflight =
+      some ((prun (pstep q .snap) win).offset, (prun (pstep q .snap) win).md) := by
+  have hs := committer_pending (p := q) (op := .snap) rfl
+  have hs_live : (pstep q .snap).live = true := by simp only [pstep]; split <;> exact hlive
+  have hs_infl : ∀ c, (pstep q .snap).inflight = some c → c.1 = q.offset := by
+    intro c hc
+    simp only [pstep] at hc
+    split at hc
+    · simp only [Option.some.injEq] at hc; rw [← hc]
+    · rename_i hg
+      -- not dirty (registered it is): nothing in flight
+      have := (hq.infl_dirty c hc)
+      exact absurd ⟨this.2, this.1⟩ hg
+  have hf := app_run_frame (p := pstep q .snap) hwin
+  have hwd : (prun (pstep q .snap) win).dirty = true := by
+    rcases hf.2.2.2.2.2.2 with h | ⟨h, _, _⟩
+    · exact h
+    · rw [h, hs.1] at hmoved; exact absurd hmoved (Int.lt_irrefl _)
+  have hne : ∀ c, (prun (pstep q .snap) win).inflight = some c → c.1 ≠ (prun (pstep q .snap) win).offset := by
+    intro c hc
+    rw [hf.2.1] at hc
+    rw [hs_infl c hc]; exact Int.ne_of_lt hmoved
+  have hkept := verdict_keeps_dirty _ v hwd hne
+  have hvf := verdict_frame (prun (pstep q .snap) win) v
+  refine ⟨hkept, ?_⟩
+  have hlive' : (pstep (prun (pstep q .snap) win) (.verdict v)).live = true := by
+    rw [hvf.2.2.1, hf.1]; exact hs_live
+  rw [snap_inflight hlive' hkept, hvf.1, hvf.2.1]
+
+/-- general form: after the end of any attempt, with any application calls in the window, the partition is
+    dirty or the coordinator holds exactly the pending pair (nothing between "will be committed again" and
+    "is stored") -/
+theorem no_lost_update (st : Option Pair) (ops : List POp) (hobj : (prun (pinit st) ops).obj = true) :
+    (prun (pinit st) ops).dirty = true ∨
+    ((prun (pinit st) ops).offset, (prun (pinit st) ops).md) = fetched (prun (pinit st) ops).store := by
+  cases hd : (prun (pinit st) ops).dirty with
+  | true => exact Or.inl rfl
+  | false => exact Or.inr (clean_means_stored st ops hobj hd)
+
+-- non-vacuity: mark 9 lands while the commit of 7 is in flight and succeeds; 9 is in the next request
+example : (prun (pinit none) [.manage, .mark 7 1, .snap, .mark 9 2, .verdict .ok]).dirty = true ∧
+          (prun (pinit none) [.manage, .mark 7 1, .snap, .mark 9 2, .verdict .ok]).store = some (7, 1) ∧
+          (prun (pinit none) [.manage, .mark 7 1, .snap, .mark 9 2, .verdict .ok, .snap]).inflight = some (9, 2) := by
+  decide
+
+/-! ## close_flushes_latest (one partition) -/
+
+/-- The final flush of `Close` seen by one registered partition with nothing in flight: if the coordinator
+    stores the block in at least one of the attempts (`ok`, or stored with the answer lost), then after
+    `Close` the coordinator holds the pair that was pending when `Close` started — the last accepted mark /
+    reset — and the partition is released; the position itself is untouched. -/
+theorem close_flushes_latest_partition (p : PState) (hp : PInv p) (hlive : p.live = true)
+    (hinfl : p.inflight = none) (vs : List PVerdict) (hacc : ∃ v ∈ vs, v ≠ PVerdict.fail) :
+    fetched (closeP p vs).store = (p.offset, p.md) ∧ (closeP p vs).live = false ∧
+      ((closeP p vs).offset, (closeP p vs).md) = (p.offset, p.md) := by
+  have hstart : Closing (p.offset, p.md) (pstep p .acloseLive) := by
+    have hobj := hp.live_obj hlive
+    have : pstep p .acloseLive = { p with done := true } := by simp [pstep, hlive]
+    rw [this]
+    exact ⟨by rw [← this]; exact pinv_step hp _, hobj, rfl, rfl, fun c hc => by simp [hinfl] at hc,
+           fun hl => by simp [hlive] at hl⟩
+  have hstart_infl : (pstep p .acloseLive).inflight = none := by
+    simp only [pstep]; split <;> exact hinfl
+  -- the loop: Closing and "nothing in flight" are kept; once stored it stays stored
+  have loop : ∀ (vs : List PVerdict) (r : PState), Closing (p.offset, p.md) r → r.inflight = none →
+      Closing (p.offset, p.md) (vs.foldl closeAttemptP r) ∧ (vs.foldl closeAttemptP r).inflight = none ∧
+      ((fetched r.store = (p.offset, p.md) ∨ ∃ v ∈ vs, v ≠ PVerdict.fail) →
+        fetched (vs.foldl closeAttemptP r).store = (p.offset, p.md)) := by
+    intro vs
+    induction vs with
+    | nil => intro r hr hi; exact ⟨hr, hi, fun h => by
+        rcases h with h | ⟨v, hv, _⟩
+        · exact h
+        · simp at hv⟩
+    | cons v vs ih =>
+      intro r hr hi
+      have hops : ∀ op ∈ [POp.snap, .verdict v, .release false], isCommitter op = true ∧ op ≠ .release true := by
+        intro op hop
+        simp only [List.mem_cons, List.mem_nil_iff, or_false] at hop
+        rcases hop with rfl | rfl | rfl <;> exact ⟨rfl, by simp⟩
+      have hr' := closing_run hr [.snap, .verdict v, .release false] hops
+      have hi' : (closeAttemptP r v).inflight = none := by
+        simp only [closeAttemptP]
+        rw [release_inflight]
+        exact (verdict_frame (pstep r .snap) v).2.2.2.1
+      have := ih (closeAttemptP r v) hr'.1 hi'
+      refine ⟨this.1, this.2.1, fun h => this.2.2 ?_⟩
+      rcases h with h | ⟨v', hv', hne⟩
+      · exact Or.inl (hr'.2.1 h)
+      · simp only [List.mem_cons] at hv'
+        rcases hv' with rfl | hv'
+        · exact Or.inl (closing_attempt hr hi v' hne).1
+        · exact Or.inr ⟨v', hv', hne⟩
+  have hl := loop vs _ hstart hstart_infl
+  have hstored := hl.2.2 (Or.inr hacc)
+  have hfin := hl.1
+  -- the forced release
+  simp only [closeP]
+  have hfr : ∀ r : PState, Closing (p.offset, p.md) r → r.inflight = none →
+      (pstep r (.release true)).store = r.store ∧ (pstep r (.release true)).live = false ∧
+      (pstep r (.release true)).offset = r.offset ∧ (pstep r (.release true)).md = r.md := by
+    intro r hr hi
+    simp only [pstep]
+    split
+    · simp
+    · rename_i hg
+      refine ⟨rfl, ?_, rfl, rfl⟩
+      cases hrl : r.live with
+      | false => rfl
+      | true => exact absurd ⟨hrl, by simp [releaseDue, hr.done], hi⟩ hg
+  have := hfr _ hfin hl.2.1
+  refine ⟨by rw [this.1]; exact hstored, this.2.1, ?_⟩
+  rw [this.2.2.1, this.2.2.2]; exact hfin.pending
+
+-- non-vacuity: first attempt fails, second is accepted
+example : (closeP (prun (pinit (some (1, 0))) [.manage, .mark 7 1, .snap, .verdict .ok, .mark 9 2])
+            [.fail, .ok, .fail]).store = some (9, 2) ∧
+          (closeP (prun (pinit (some (1, 0))) [.manage, .mark 7 1, .snap, .verdict .ok, .mark 9 2])
+            [.fail, .ok, .fail]).live = false := by decide
+-- and without an accepted attempt the mark does not reach the coordinator (the hypothesis is needed)
+example : (closeP (prun (pinit (some (1, 0))) [.manage, .mark 7 1, .snap, .verdict .ok, .mark 9 2])
+            [.fail, .fail]).store = some (7, 1) := by decide
+
+
+/-! # Part 2: the system (all partitions, cached coordinator, one committer at a time) -/
+
+/-- every reachable system state satisfies the system invariant (partition invariants; no request under way
+    ⇒ no block in flight anywhere) -/
+theorem sys_reach_inv (sts : List (Option Pair)) (ops : List Op) : SInv (run (sinit sts) ops) :=
+  sinv_run (sinv_init sts) ops
+
+/-- Every partition of every system run is a partition-level run from the unmanaged state: the system adds
+    no behaviour a partition could observe beyond the operation sequences Part 1 quantifies over. -/
+theorem sys_partition_trace (sts : List (Option Pair)) (ops : List Op) (i : Nat) :
+    (run (sinit sts) ops).parts[i]? =
+      (sts[i]?).map (fun st => prun (pinit st) (projRun (sinit sts) i ops)) := by
+  rw [run_parts]
+  simp only [sinit, List.getElem?_map, Option.map_map]
+  rfl
+
+/-- committed_was_marked for the system: every pair in partition `i`'s commit log is the pair stored for it
+    initially or the argument of a MarkOffset / ResetOffset call on partition `i` -/
+theorem sys_committed_was_marked (sts : List (Option Pair)) (ops : List Op) (i : Nat) (p : PState)
+    (hp : (run (sinit sts) ops).parts[i]? = some p) :
+    ∃ st, sts[i]? = some st ∧
+      ∀ c ∈ p.commits, c = fetched st ∨ Op.mark i c.1 c.2 ∈ ops ∨ Op.reset i c.1 c.2 ∈ ops := by
+  rw [sys_partition_trace] at hp
+  cases hst : sts[i]? with
+  | none => simp [hst] at hp
+  | some st =>
+    simp only [hst, Option.map_some, Option.some.injEq] at hp
+    refine ⟨st, rfl, fun c hc => ?_⟩
+    rw [← hp] at hc
+    rcases committed_was_marked_args st _ c hc with h | h | h
+    · exact Or.inl h
+    · exact Or.inr (Or.inl (projRun_mark h))
+    · exact Or.inr (Or.inr (projRun_reset h))
+
+/-- the blocks of the request `constructRequest` builds are the pending pairs of the registered dirty
+    partitions, and each is logged as that partition's newest commit — so the theorems about the commit logs
+    are theorems about the requests on the wire -/
+theorem request_blocks_are_commits (s : Sys) (hs : SInv s) (hidle : s.active = false) (i : Nat) (p : PState)
+    (hp : s.parts[i]? = some p) (c : Pair)
+    (hb : (requestBlocks (stepSys s .construct))[i]? = some (some c)) :
+    c = (p.offset, p.md) ∧ p.live = true ∧ p.dirty = true ∧
+      ∃ q, (stepSys s .construct).parts[i]? = some q ∧ q.commits = c :: p.commits := by
+  have hq : (stepSys s .construct).parts[i]? = some (pstep p .snap) := by
+    rw [stepSys_parts, hp]; simp [proj, hidle]
+  simp only [requestBlocks, List.getElem?_map, hq, Option.map_some, Option.some.injEq] at hb
+  have hnone := hs.idle hidle p (List.mem_of_getElem? hp)
+  by_cases hg : p.live = true ∧ p.dirty = true
+  · obtain ⟨hl, hd⟩ := hg
+    have hcm : (pstep p .snap).commits = (p.offset, p.md) :: p.commits := by simp [pstep, hl, hd]
+    rw [snap_inflight hl hd] at hb
+    simp only [Option.some.injEq] at hb
+    exact ⟨hb.symm, hl, hd, _, hq, by rw [hcm, hb]⟩
+  · exfalso
+    have : pstep p .snap = p := by simp only [pstep]; rw [if_neg hg]
+    rw [this, hnone] at hb
+    exact absurd hb (by simp)
+
+/-- … hence: every block of every commit request of every system run is the initially stored pair or the
+    argument of a MarkOffset / ResetOffset call on that partition made before the request was built -/
+theorem sys_request_blocks_marked (sts : List (Option Pair)) (ops : List Op)
+    (hidle : (run (sinit sts) ops).active = false) (i : Nat) (c : Pair)
+    (hb : (requestBlocks (stepSys (run (sinit sts) ops) .construct))[i]? = some (some c)) :
+    ∃ st, sts[i]? = some st ∧ (c = fetched st ∨ Op.mark i c.1 c.2 ∈ ops ∨ Op.reset i c.1 c.2 ∈ ops) := by
+  have hs := sys_reach_inv sts ops
+  cases hp : (run (sinit sts) ops).parts[i]? with
+  | none =>
+    exfalso
+    have : (stepSys (run (sinit sts) ops) .construct).parts[i]? = none := by rw [stepSys_parts, hp]; rfl
+    simp [requestBlocks, List.getElem?_map, this] at hb
+  | some p =>
+    obtain ⟨_, _, _, q, hq, hcm⟩ := request_blocks_are_commits _ hs hidle i p hp c hb
+    have hrun : (run (sinit sts) (ops ++ [.construct])).parts[i]? = some q := by
+      rw [run_append]; exact hq
+    obtain ⟨st, hst, hall⟩ := sys_committed_was_marked sts (ops ++ [.construct]) i q hrun
+    refine ⟨st, hst, ?_⟩
+    rcases hall c (by rw [hcm]; exact List.mem_cons_self ..) with h | h | h
+    · exact Or.inl h
+    · right; left; simpa using h
+    · right; right; simpa using h
+
+example :
+    requestBlocks (run (sinit [none, some (5, 1)])
+      [.manage 0, .manage 1, .mark 0 7 2, .mark 1 9 3, .reset 1 4 1, .construct]) = [some (7, 2), some (4, 1)] := by
+  decide
+
+/-! ## close_flushes_latest -/
+
+/-- `Close()` with auto-commit on, from any reachable state with no request under way (the ticker loop has
+    exited; a concurrent manual `Commit` is excluded by the property), no application call during `Close`:
+    if among the `retryMax + 1` permitted final attempts there is one the coordinator accepts (lookup
+    succeeds, NoError for every partition), then for every registered partition the coordinator holds, when
+    `Close` returns, the pair that was pending when `Close` was called (the last accepted MarkOffset /
+    ResetOffset: `PInv.hist_head`), and the partition is released. Earlier attempts may fail in any way. -/
+theorem close_flushes_latest (s : Sys) (hs : SInv s) (hidle : s.active = false) (retryMax : Nat)
+    (script : List Attempt) (hw : ∀ a ∈ script, a.win = [])
+    (hacc : ∃ a ∈ script.take (retryMax + 1), Accepting s.parts.length a)
+    (i : Nat) (p : PState) (hp : s.parts[i]? = some p) (hlive : p.live = true) :
+    ∃ r, (run s (closeOps s true retryMax script)).parts[i]? = some r ∧
+      fetched r.store = (p.offset, p.md) ∧ r.live = false ∧ (r.offset, r.md) = (p.offset, p.md) := by
+  have hpinv := hs.parts p (List.mem_of_getElem? hp)
+  have hinfl := hs.idle hidle p (List.mem_of_getElem? hp)
+  -- asyncClosePOMs
+  have hs0 : SInv (stepSys s .acloseAll) := sinv_step hs _
+  have hidle0 : (stepSys s .acloseAll).active = false := hidle
+  have hp0 : (stepSys s .acloseAll).parts[i]? = some (pstep p .acloseLive) := by
+    rw [stepSys_parts, hp]; rfl
+  have hcl0 : Closing (p.offset, p.md) (pstep p .acloseLive) := by
+    have hobj := hpinv.live_obj hlive
+    have : pstep p .acloseLive = { p with done := true } := by simp [pstep, hlive]
+    rw [this]
+    exact ⟨by rw [← this]; exact pinv_step hpinv _, hobj, rfl, rfl, fun c hc => by simp [hinfl] at hc,
+           fun hl => by simp [hlive] at hl⟩
+  have hw' : ∀ a ∈ script.take (retryMax + 1), a.win = [] := fun a ha => hw a (List.mem_of_mem_take ha)
+  have hacc' : ∃ a ∈ script.take (retryMax + 1), Accepting (stepSys s .acloseAll).parts.length a := by
+    rw [stepSys_length]; exact hacc
+  obtain ⟨r, hr, hclr, hlr⟩ := closeLoop_flushes (pend := (p.offset, p.md)) i _ _ hs0 hidle0 hw' hacc' _ hp0 hcl0
+  refine ⟨r, ?_, (hclr.dead hlr).1, hlr, hclr.pending⟩
+  -- the forced release and dropping the coordinator do not touch a released partition
+  simp only [closeOps, ↓reduceIte, List.cons_append, List.nil_append, run]
+  rw [run_append]
+  simp only [run, stepSys_parts, hr, Option.map_some, Option.some.injEq]
+  have hrel : ∀ f, pstep r (.release f) = r := by
+    intro f; simp [pstep, hlr]
+  simp only [proj]
+  split <;> simp [pstep, hlr]
+
+-- non-vacuity: two partitions, first attempt loses the connection, second fails at lookup, third is accepted
+example :
+    (run (run (sinit [none, some (5, 1)]) [.manage 0, .manage 1, .mark 0 7 2, .mark 1 9 3])
+      (closeOps (run (sinit [none, some (5, 1)]) [.manage 0, .manage 1, .mark 0 7 2, .mark 1 9 3]) true 2
+        [⟨true, [], .connErr false⟩, ⟨false, [], .respond [.code 0, .code 0]⟩,
+         ⟨true, [], .respond [.code 0, .code 0]⟩])).parts.map (·.store) = [some (7, 2), some (9, 3)] := by
+  decide
+-- with retryMax = 1 the accepted attempt is not reached: nothing is stored (the hypothesis is needed)
+example :
+    (run (run (sinit [none, some (5, 1)]) [.manage 0, .manage 1, .mark 0 7 2, .mark 1 9 3])
+      (closeOps (run (sinit [none, some (5, 1)]) [.manage 0, .manage 1, .mark 0 7 2, .mark 1 9 3]) true 1
+        [⟨true, [], .connErr false⟩, ⟨false, [], .respond [.code 0, .code 0]⟩,
+         ⟨true, [], .respond [.code 0, .code 0]⟩])).parts.map (·.store) = [none, some (5, 1)] := by
+  decide
 
 end Props.C06
